@@ -52,6 +52,8 @@ type Op struct {
 	CID    int32    `json:"cid,omitempty"`
 	Notify string   `json:"notify,omitempty"`
 	PDU    bool     `json:"pdu,omitempty"`
+	NoPSI  bool     `json:"nopsi,omitempty"` // create: pDUSessionChargingInformation without pduSessionInformation (rejected after the record counter moved)
+	OTE    string   `json:"ote,omitempty"`   // create: one-time event of this type (IEC / PEC); opens no session
 	Raw    string   `json:"raw,omitempty"` // raw JSON body override
 	Path   string   `json:"path,omitempty"`
 	Method string   `json:"method,omitempty"`
@@ -105,7 +107,13 @@ func (o Op) Request(supi string) models.ChfConvergedChargingChargingDataRequest 
 	}
 	if o.K == "create" {
 		r.NotifyUri = o.Notify
-		if o.PDU {
+		if o.OTE != "" {
+			r.OneTimeEvent = true
+			r.OneTimeEventType = models.OneTimeEventType(o.OTE)
+		}
+		if o.NoPSI {
+			r.PDUSessionChargingInformation = &models.ChfConvergedChargingPduSessionChargingInformation{ChargingId: o.CID}
+		} else if o.PDU {
 			r.PDUSessionChargingInformation = &models.ChfConvergedChargingPduSessionChargingInformation{
 				ChargingId: o.CID,
 				PduSessionInformation: &models.ChfConvergedChargingPduSessionInformation{PduSessionID: 5, DnnId: "internet",
@@ -270,7 +278,7 @@ func (w *World) execInto(supis []string, h *HistRun, ops []Op, snapFrom int, wit
 		switch op.K {
 		case "create":
 			st.Resp = w.Do("POST", ccBase+"/chargingdata", body, nil)
-			if st.Resp.Code == 201 {
+			if st.Resp.Code == 201 && op.OTE == "" {
 				h.Sess = append(h.Sess, &Sess{U: op.U, Supi: supi, Ref: refOf(st.Resp.Location), Cons: op.Cons, Live: true,
 					LastGrant: map[int32]int32{}, CID: op.CID, CreatedAt: i})
 				se = h.Sess[len(h.Sess)-1]
